@@ -2,6 +2,8 @@
 pub mod checks;
 pub mod cmp;
 pub mod driver;
+pub mod explore;
+pub mod hist;
 pub mod families;
 pub mod model;
 pub mod prog;
